@@ -1,10 +1,17 @@
-"""C15 - walking stays sound while the tree is being modified (bounded)."""
+"""C15 - walking stays sound while the tree is being modified."""
+from contracts import k_walk
+from pyvc.contract import verify_all
 from pyvc import native
 
 
 def run(rep, tier, seed):
+    # P: one iteration of the on='enter' loop between suspension points, heap havocked at every yield
+    verify_all(rep, k_walk.specs('C15'))
+    rep.assumptions.append('consumer model at a yield: the yielded node is left unchanged, replaced (its .a is another '
+                           'AST whose .f is the node) or deleted (.a is None); at most two send() calls per suspension')
     sec = native.run('b_walkmod', 'main', {'tier': tier, 'seed': seed}, timeout=7200)
     sec['native_entry'] = ('b_walkmod', 'replay')
     rep.bounded(sec)
     rep.remainder = ('termination and "exactly once" under arbitrary interleavings on arbitrary trees (whole-history); '
-                     'the yield-liveness obligations of DESIGN C15/P are not registered in this revision')
+                     "the on='leave' / on='both' loops, the first-node prefix and the scope helper functions of walk: "
+                     'bounded stand-in only')
